@@ -404,7 +404,7 @@ def corruptions(rng, w, desc):
 # ------------------------------------------------------------------------------------------------ the run
 def build_generated(rng, tier):
     """returns list of worlds: {domain_text, cases: [{text, expect, kind, klass, nontrivial, desc}]}"""
-    n_worlds = 50 if tier == "quick" else 300
+    n_worlds = 50 if tier == "quick" else 250
     worlds = []
     for wi in range(n_worlds):
         w = gen_domain(rng)
@@ -432,7 +432,7 @@ def build_generated(rng, tier):
                 ctext = G.render(problem_tree(cd), rng, noise=False)
                 cases.append({"text": ctext, "expect": "raised", "kind": "corrupt-" + kind, "klass": klass,
                               "nontrivial": True, "desc": cd})
-        cases += boundary_cases(rng, w, 10 if tier == "quick" else 60)
+        cases += boundary_cases(rng, w, 10 if tier == "quick" else 40)
         worlds.append({"domain_text": dtext, "cases": cases, "source": "generated"})
     return worlds
 
@@ -703,7 +703,7 @@ def run(args):
                    "EVERY single-point corruption of each D07-free valid problem (domain name, object type, and per init fact / fluent / "
                    "goal literal / goal fluent: name, arity+1, arity-1, undeclared object, ill-typed object, non-numeral value; sub-sampled "
                    "to 14 per problem in the quick tier), the type-check boundary (one object per type and the constants, single-item problems "
-                   "over every argument tuple of every predicate / function, sampled to 10 (quick) / 60 (thorough) per domain; accepted iff "
+                   "over every argument tuple of every predicate / function, sampled to 10 (quick) / 40 (thorough) per domain; accepted iff "
                    "every argument conforms), hand-written deviation witnesses, shipped problem files each against its domain "
                    "(quick: files <= 2100 bytes). Non-trivial: >= 2 init/goal items or any corruption; distinct by input hash.")
     cov["samples"] = [{"kind": c["input"]["world"]["cases"][0]["kind"],
